@@ -84,7 +84,7 @@ func interp(toks []string) string {
 
 // genC12: exact map with one offset per key (Get) and with block offsets (RangeGet).
 func genC12(c *lp.Ctx) {
-	n := c.Pick(300, 3000)
+	n := c.Pick(300, 1000)
 	size := c.Pick(250, 1500)
 	for it := 0; it < n; it++ {
 		ks := gen.Any(c.Rng, size)
@@ -139,7 +139,7 @@ func genC12(c *lp.Ctx) {
 // genC02viaIndex: property C02 through package index: with block offsets,
 // SlimIndex.RangeGet returns the stored record of every indexed key.
 func genC02viaIndex(c *lp.Ctx) {
-	n := c.Pick(120, 1200)
+	n := c.Pick(120, 400)
 	for it := 0; it < n; it++ {
 		ks := gen.Any(c.Rng, c.Pick(150, 600))
 		if len(ks.Keys) == 0 {
